@@ -138,7 +138,7 @@ claim("C13", "E7+E4+E5",
 
 
 claim("C01", "E2+E1",
-      "static analysis: forward order-taint of every HashMap/HashSet iteration over MIR (adapters, collects, loops, callees, return summaries) with an audited table and re-checked witnesses; who-may-call rules for clock/env/thread/address/statics; reuse of the forced happens-before result of C02",
+      "static analysis: forward order-taint of every HashMap/HashSet iteration over MIR (adapters, collects, loops, callees, return summaries) with an audited table and re-checked witnesses; who-may-call rules for clock/env/thread/address/statics; no interior-mutable state in the Context structs outside the scheduler-ordered slots (N6); reuse of the forced happens-before result of C02",
       "Static decision of the structural clauses of repeatable builds: the process-dependent inputs (hash seeds, clock, environment, thread identity, "
       "addresses, hidden shared state) cannot reach a context slot or the font bytes except through order-normalising operations, and (with C02's "
       "result) every job reads the same values in every schedule. A HashMap leak shows only for some seeds and only when two keys compete, which "
